@@ -665,6 +665,11 @@ func mapDecodeBytes(mapVal any, ts TypeSettings) ([]byte, error) {
 // struct at least one key of its fields (fields of embedded and of inlined structs included) or its type code, for an
 // interface the type code of the implementation. The keys are those that mapEncodeStructFields writes.
 func (api *API) hasKeyOfMember(m map[string]any, memberType reflect.Type, visitedTypes ...reflect.Type) bool {
+	// a member that reads its map form itself: its keys are not known, it is always read (and never left out by the
+	// encoder, see mapEncodeStructFields)
+	if hasJSONCodec(memberType) {
+		return true
+	}
 	memberType = deRefPointers(memberType)
 
 	// a struct that inlines itself has no keys beyond those of the first round
